@@ -92,7 +92,14 @@ def run_scenario(spec, k, switches):
                 except Exception as ex:
                     tr.events.append(("OWN_INSTRUMENT", {"day": d, "result": "order_target_portfolio raised " + type(ex).__name__}))
             hb0(context, bar_dict)
-        return dict(handlers, init=init, handle_bar=handle_bar)
+        bt0 = handlers.get("before_trading")
+
+        def before_trading(context):
+            if spec["kind"] == "failbt" and len(day_done) >= 1:
+                raise ValueError("strategy bug injected by the harness (before the open)")
+            if bt0 is not None:
+                bt0(context)
+        return dict(handlers, init=init, handle_bar=handle_bar, before_trading=before_trading)
     rnd = random.Random(spec["seed"] + 1)
     an = {"enabled": True, "record": True, "plot": False, "benchmark": None} if spec["kind"] == "analyser" else False
     tr = trading.run_trading(rnd, S, cfgk, script=script, ids=trade_ids, analyser=an, workaround_f19=False)
